@@ -34,6 +34,7 @@ type moveRun struct {
 	trace       bool
 	panicked    string
 	dataLists   types.Type // element type of the lists that stand for raw backings in Apply
+	orderBad    string     // set when a cell\'s outcome changed with the order of the attributes
 	dtype       string     // gorgonia dtype variable the tensors report (default Float32)
 	nameOutputs bool       // the node names its outputs even when there is one only
 	intercept   func(fn *ssa.Function, call *ssa.Call, callee *ssa.Function, args []pval, h *pheap) ([]pval, bool)
@@ -82,6 +83,44 @@ func (m *moveRun) cell(attrs []moveAttr, inputs []*moveTensor) moveOut {
 // cellN is cell for an operator with n outputs; a result of one element with followed=false / isErr stands for the
 // whole walk.
 func (m *moveRun) cellN(attrs []moveAttr, inputs []*moveTensor, n int) []moveOut {
+	outs := m.cellN1(attrs, inputs, n)
+	if len(attrs) < 2 || m.orderBad != "" || m.panicked != "" {
+		return outs
+	}
+	// the order of a node's attributes carries no meaning: the same cell with the list reversed
+	rev := make([]moveAttr, len(attrs))
+	for i, a := range attrs {
+		rev[len(attrs)-1-i] = a
+	}
+	outs2 := m.cellN1(rev, inputs, n)
+	same := len(outs) == len(outs2) && m.panicked == ""
+	for i := 0; same && i < len(outs); i++ {
+		a, b := outs[i], outs2[i]
+		if a.followed != b.followed || a.isErr != b.isErr || fmtInts(a.shape) != fmtInts(b.shape) || len(a.elems) != len(b.elems) {
+			same = false
+			break
+		}
+		for k := range a.elems {
+			if a.elems[k].k != b.elems[k].k || a.elems[k].s != b.elems[k].s || a.elems[k].i != b.elems[k].i {
+				same = false
+			}
+		}
+	}
+	if !same && (len(outs) == 0 || outs[0].followed) && (len(outs2) == 0 || outs2[0].followed || m.panicked != "") {
+		var names []string
+		for _, a := range attrs {
+			names = append(names, a.name)
+		}
+		m.orderBad = "the result depends on the order in which the node lists its attributes (" + strings.Join(names, ", ") + " against the reverse)"
+		if m.panicked != "" {
+			m.orderBad += ": with the reversed list the operator panics, " + m.panicked
+		}
+	}
+	m.panicked = ""
+	return outs
+}
+
+func (m *moveRun) cellN1(attrs []moveAttr, inputs []*moveTensor, n int) []moveOut {
 	c := m.c
 	heap := m.st.heap.clone()
 	b := &rtBuilder{c: c, heap: heap, onnx: m.onnx}
@@ -161,9 +200,14 @@ func (m *moveRun) cellN(attrs []moveAttr, inputs []*moveTensor, n int) []moveOut
 	}
 	heap = h
 	var in []pval
+	seenT := map[*moveTensor]pval{}
 	for _, t := range inputs {
 		if t == nil {
 			in = append(in, pval{k: pNil})
+			continue
+		}
+		if v, ok := seenT[t]; ok {
+			in = append(in, v) // the same tensor object at two positions
 			continue
 		}
 		total := int64(1)
@@ -177,7 +221,9 @@ func (m *moveRun) cellN(attrs []moveAttr, inputs []*moveTensor, n int) []moveOut
 				cont[k] = pval{k: pStr, s: fmt.Sprintf("%s%d", t.name, k)}
 			}
 		}
-		in = append(in, pval{k: pShaped, i: 900, j: ints(t.shape).i, m: heap.alloc(append([]pval{}, cont...)).i})
+		tv := pval{k: pShaped, i: 900, j: ints(t.shape).i, m: heap.alloc(append([]pval{}, cont...)).i}
+		seenT[t] = tv
+		in = append(in, tv)
 	}
 	p.listsAreSlicesOf = m.dataLists // what Data() of an index tensor stands for (nil: no raw backing is read)
 	inList := heap.alloc(append([]pval{}, in...))
@@ -570,6 +616,62 @@ func (c *Ctx) matmulProvenance() (known bool, bad string, cells, refused int) {
 			}
 		}
 	}
+	// one tensor object as both operands (x times x): a [2,2] matrix, a vector and a stack of matrices
+	for _, sh := range [][]int64{{2, 2}, {3}, {2, 2, 2}} {
+		x := &moveTensor{shape: sh, name: "a"}
+		out := m.cell(nil, []*moveTensor{x, x})
+		desc := fmt.Sprintf("MatMul of a tensor of shape %s with itself (one tensor object as both operands)", fmtInts(sh))
+		switch {
+		case m.panicked != "":
+			return true, desc + " panics: " + m.panicked, cells, refused
+		case !out.followed:
+			if os.Getenv("MOVEDEBUG") != "" {
+				fmt.Println("MOVEDEBUG not followed:", desc)
+			}
+			return false, "", cells, refused
+		case out.isErr:
+			return true, desc + " is refused", cells, refused
+		}
+		cells++
+		got, ok := elemsString(out.elems)
+		if !ok {
+			return false, "", cells, refused
+		}
+		var want []string
+		switch len(sh) {
+		case 1:
+			acc := pval{k: pStr, s: "0"}
+			for q := int64(0); q < sh[0]; q++ {
+				acc = combineElems("Add", acc, combineElems("Mul", elemName("a", q), elemName("a", q)))
+			}
+			want = []string{acc.s}
+		default:
+			n := sh[len(sh)-1]
+			stack := prodInts(sh) / (n * n)
+			for bq := int64(0); bq < stack; bq++ {
+				for i := int64(0); i < n; i++ {
+					for j := int64(0); j < n; j++ {
+						acc := pval{k: pStr, s: "0"}
+						for q := int64(0); q < n; q++ {
+							acc = combineElems("Add", acc, combineElems("Mul", elemName("a", bq*n*n+i*n+q), elemName("a", bq*n*n+q*n+j)))
+						}
+						want = append(want, acc.s)
+					}
+				}
+			}
+		}
+		if len(got) != len(want) {
+			return true, fmt.Sprintf("%s has %d elements, numpy.matmul gives %d", desc, len(got), len(want)), cells, refused
+		}
+		for f := range got {
+			if got[f] != want[f] {
+				return true, fmt.Sprintf("%s: element %d of the result is %s, numpy.matmul gives %s", desc, f, got[f], want[f]), cells, refused
+			}
+		}
+		if out.same >= 0 {
+			return true, desc + ": the result is the operand itself", cells, refused
+		}
+	}
 	if unc := m.cov.uncovered(c); len(unc) > 0 {
 		c.declined("MatMul provenance table", unc)
 		return false, "", cells, refused
@@ -808,6 +910,9 @@ func (c *Ctx) gemmTable() (known bool, bad string, cells int) {
 					if m.panicked != "" {
 						return true, desc + " panics: " + m.panicked, cells
 					}
+					if m.orderBad != "" {
+						return true, desc + ": " + m.orderBad, cells
+					}
 					if !out.followed {
 						if os.Getenv("MOVEDEBUG") != "" {
 							fmt.Println("MOVEDEBUG not followed:", desc)
@@ -913,6 +1018,55 @@ func (c *Ctx) gemmTable() (known bool, bad string, cells int) {
 		return true, "Gemm of a (2,3) and a (2,2) matrix is answered with a tensor instead of an error", cells
 	}
 	cells++
+	// one tensor object as A and as B (a Gram matrix): what is done to one operand must not reach the other
+	for _, ta := range []bool{false, true} {
+		for _, tb := range []bool{false, true} {
+			var attrs []moveAttr
+			if ta {
+				attrs = append(attrs, moveAttr{name: "transA", i: &one})
+			}
+			if tb {
+				attrs = append(attrs, moveAttr{name: "transB", i: &one})
+			}
+			x := &moveTensor{shape: []int64{2, 2}, name: "a"}
+			out := m.cell(attrs, []*moveTensor{x, x, nil})
+			desc := fmt.Sprintf("Gemm with transA=%v, transB=%v and the same [2,2] tensor as A and as B", ta, tb)
+			switch {
+			case m.panicked != "":
+				return true, desc + " panics: " + m.panicked, cells
+			case !out.followed:
+				if os.Getenv("MOVEDEBUG") != "" {
+					fmt.Println("MOVEDEBUG not followed:", desc)
+				}
+				return false, "", cells
+			case out.isErr:
+				return true, desc + " is refused", cells
+			}
+			cells++
+			got, ok := elemsString(out.elems)
+			if !ok || len(got) != 4 {
+				return false, "", cells
+			}
+			for i := int64(0); i < 2; i++ {
+				for j := int64(0); j < 2; j++ {
+					acc := pval{k: pStr, s: "0"}
+					for q := int64(0); q < 2; q++ {
+						ai, bi := i*2+q, q*2+j
+						if ta {
+							ai = q*2 + i
+						}
+						if tb {
+							bi = j*2 + q
+						}
+						acc = combineElems("Add", acc, combineElems("Mul", pval{k: pStr, s: fmt.Sprintf("a%d", ai)}, pval{k: pStr, s: fmt.Sprintf("a%d", bi)}))
+					}
+					if g := got[i*2+j]; g != acc.s {
+						return true, fmt.Sprintf("%s: element [%d,%d] of the result is %s, op(A)*op(B) gives %s", desc, i, j, g, acc.s), cells
+					}
+				}
+			}
+		}
+	}
 	if unc := m.cov.uncovered(c); len(unc) > 0 {
 		c.declined("Gemm provenance table", unc)
 		return false, "", cells
